@@ -109,6 +109,13 @@ def impl(case):
     lat = _lattice(case)
     pos = np.array(case['pos'], dtype=float) / DEN
     traj = Trajectory(species=[Element('Li')] * pos.shape[1], coords=pos, lattice=lat, time_step=2e-15, metadata={'temperature': 300})
+    traj_li = traj
+    if case['mode'] == 'auto' and case['rseed'] % 2 == 0:
+        # a framework that hardly moves shares the cell: the automatic radius is that of the diffusing species, whatever else is in the cell
+        fw = np.tile(np.array([[[0.123, 0.456, 0.789], [0.871, 0.214, 0.333]]]), (pos.shape[0], 1, 1)) + 1e-4 * np.sin(np.arange(pos.shape[0]))[:, None, None]
+        traj = Trajectory(species=[Element('Li')] * pos.shape[1] + [Element('O')] * 2, coords=np.concatenate([pos, fw], axis=1), lattice=lat, time_step=2e-15,
+                          metadata={'temperature': 300})
+        traj_li = traj.filter('Li')
     # the site structure may come in a slightly different cell than the simulation (same fractional coordinates): distances are those of the simulation cell
     from pymatgen.core import Lattice
     slat = lat if case.get('site_scale', 1.0) == 1.0 else Lattice(np.array(lat.matrix) * case['site_scale'])
@@ -118,7 +125,7 @@ def impl(case):
     import copy
     radius = copy.deepcopy(case['radius'])
     if case['mode'] == 'auto':
-        amp = TrajectoryMetrics(traj).vibration_amplitude()
+        amp = TrajectoryMetrics(traj_li).vibration_amplitude()
         try:
             out['vib'] = float(amp)
             out['auto_radius'] = float(_compute_site_radius(trajectory=traj, sites=sites, vibration_amplitude=amp))
@@ -148,13 +155,13 @@ def impl(case):
         # no atom ever changes state: the event table cannot be built (allowed by C03); observe the states directly
         from gemdat.transitions import _calculate_atom_states
         rd = radius if isinstance(radius, dict) else {'': radius if radius is not None else out['auto_radius']}
-        out['states'] = _calculate_atom_states(sites=sites, trajectory=traj, site_radius=rd).tolist()
-        out['inner'] = _calculate_atom_states(sites=sites, trajectory=traj, site_radius=rd, site_inner_fraction=case['frac']).tolist()
+        out['states'] = _calculate_atom_states(sites=sites, trajectory=traj_li, site_radius=rd).tolist()
+        out['inner'] = _calculate_atom_states(sites=sites, trajectory=traj_li, site_radius=rd, site_inner_fraction=case['frac']).tolist()
         out['no_events'] = True
-    out['wrapped'] = (np.array(traj.positions) * DEN).tolist()
+    out['wrapped'] = (np.array(traj_li.positions) * DEN).tolist()
     rr = list(radius.values()) if isinstance(radius, dict) else [radius if radius is not None else out['auto_radius']]
     rr = rr + [r * case['frac'] for r in rr]
-    out['pkdtree_disagrees'] = bool(synth.pkdtree_disagrees(lat, sites.frac_coords, np.array(traj.positions).reshape(-1, 3), rr))
+    out['pkdtree_disagrees'] = bool(synth.pkdtree_disagrees(lat, sites.frac_coords, np.array(traj_li.positions).reshape(-1, 3), rr))
     return out
 
 
